@@ -120,6 +120,37 @@ class OsPath(PurePosixPath):
             st_size = OS.tree.files[self.key()].length() if OS.tree.kind[self.key()] == "file" else 4096
         return St
 
+    def is_file(self):
+        return OS.tree.kind.get(self.key()) == "file"
+
+    def open(self, mode="r", *a, **k):
+        return Handle(self.key(), mode)
+
+    def write_bytes(self, data):
+        with Handle(self.key(), "wb") as h:
+            h.write(data)
+        return sym_len(data)
+
+    def read_bytes(self):
+        return Handle(self.key(), "rb").read()
+
+    def touch(self, exist_ok=True):
+        if not self.exists():
+            Handle(self.key(), "x")
+        elif not exist_ok:
+            raise FileExistsError(self.key())
+
+    def unlink(self, missing_ok=False):
+        if not self.exists() and missing_ok:
+            return
+        OsShim.remove(self)
+
+    def mkdir(self, *a, **k):
+        OsShim.mkdir(self)
+
+    def rmdir(self):
+        OsShim.rmdir(self)
+
     def rename(self, new):
         _os_move(self.key(), OsPath(new).key(), overwrite=False)
 
@@ -155,6 +186,13 @@ class Handle:
                 raise FileNotFoundError(key)
             t.kind[key] = "file"
             t.files[key] = FileC(50 + UNIVERSE.index(key), 0)
+        elif mode.startswith("a"):
+            if not t.exists(key):
+                if not t.parent_ok(key):
+                    raise FileNotFoundError(key)
+                t.kind[key] = "file"
+                t.files[key] = FileC(50 + UNIVERSE.index(key), 0)
+            self.pos = t.files[key].length()
         elif mode.startswith("w"):
             if not t.exists(key):
                 if not t.parent_ok(key):
@@ -497,6 +535,8 @@ def judge(ctx, w, op, before, want_res, want_tree, got, after, x, p, off, rlen):
         ctx.prop("after_same_nodes", after.kind == want_tree.kind,
                  lambda: {"sig": f"after: tree {sorted(after.kind.items())} expected {sorted(want_tree.kind.items())}"})
         for k, f in want_tree.files.items():
+            ctx.prop("after_same_length", len(after.files[k].bytes_conc()) == len(f.bytes_conc()),
+                     lambda: {"sig": f"after: length of {k}"})
             ctx.prop("after_same_content", after.files[k].bytes_conc() == f.bytes_conc(),
                      lambda: {"sig": f"after: content of {k}"})
 
